@@ -405,7 +405,7 @@ end HdVerif.Ann
 namespace HdVerif.Ann
 open HdVerif HdVerif.Gen
 
-/-- the documented cast applied to every cell -/
+/-- the constructor's cast applied to every cell -/
 def castG {α : Type} (cast : α → α) (gd : GData α) : GData α := gd.map (fun a => a.map (fun r => r.map cast))
 
 /-- well-formed construction input: at least one annotation, point counts per type, open polygons,
